@@ -282,3 +282,41 @@ func H_rec_rename_onto() {
 func verifDeliver2(w *inotify, wd uint32, mask uint32) (Event, bool) {
 	return verifDeliverName(w, wd, mask, 0, "")
 }
+
+// C03 below a recursive watch: the records of one read are delivered in the
+// order the kernel queued them, whatever they are (a directory created inside
+// the tree gets its watch when its turn comes, not before).
+func H_rec_order() {
+	verifKReset()
+	w := verifNewInotifyN(0, verifChoose("evcap", 2), 8)
+	verifSetupRec(w, 5)
+	verifK.nIno = 1
+	verifK.marks[0] = verifMark{}
+	verifK.addResolve = 0
+	K := 2 + verifParam("RK")
+	kinds := [...]uint32{unix.IN_CREATE, unix.IN_CREATE | unix.IN_ISDIR, unix.IN_MODIFY, unix.IN_DELETE, unix.IN_ATTRIB | unix.IN_ISDIR}
+	names := [...]string{"n0", "n1", "n2"}
+	p := verifRecT[verifChoose("parent", 5)]
+	var m [3]uint32
+	for k := 0; k < K; k++ {
+		m[k] = kinds[verifChoose("kind", len(kinds))]
+	}
+	n := verifInt("n")
+	verifAssume(n == 32*K)
+	verifK.script[0] = verifRead{n: n}
+	verifK.nScript = 1
+	verifK.blockAfter = true
+	verifFillBuffer = func(i int, b []byte, n int) {
+		off := 0
+		for k := 0; k < K; k++ {
+			off += verifPutRecord(b, off, p.wd, m[k], 0, names[k])
+		}
+	}
+	go w.readEvents()
+	for k := 0; k < K; k++ {
+		ev := <-w.Events
+		verifAssert(ev.Name == p.path+"/"+names[k] && ev.Op == verifInotifyOps(m[k]), "events of one read are delivered in the order the kernel queued the records, also below a recursive watch")
+	}
+	verifAssert(w.Close() == nil, "Close")
+	verifReach("rec-order")
+}
